@@ -55,6 +55,20 @@ add(S, "hfp_record_after_kill", one, fetch("r1", "k1", "d1", 0, "uncacheable") +
 add(S, "memory_expiry", one, fetch("r1", "k1", "d1", 1) + tick(2) + ask("r2", "k1", "d1"))
 json.dump(S, open(os.path.join(here, "store_directed.json"), "w"), indent=0)
 
+# sequential traffic on three keys of one one-entry shard (every request evicts the previous key), then everything asked again
+three = {"disps": [{"name": "d1", "limit": 1, "hfp": 1, "store": False}, {"name": "d2", "limit": 0, "hfp": 1, "store": False}], "keys": {"k1": 1, "k2": 1, "k3": 1}}
+KD = []
+seq = []
+for k in ["k1", "k2", "k1", "k3", "k2", "k2", "k1", "k3", "k3"]:
+    seq += [{"a": "Start", "p": "r1", "k": k, "d": "d1", "m": "GET"}] + R("r1", 3) + [{"a": "FetchEndIf", "p": "r1", "out": "cacheable", "ttl": 2}] + R("r1", 8)
+add(KD, "evicting_sequence_one_client", three, seq)
+seq2 = []
+for i, k in enumerate(["k1", "k2", "k3", "k1", "k2", "k3", "k3", "k2", "k1"]):
+    r = ["r1", "r2"][i % 2]
+    seq2 += [{"a": "Start", "p": r, "k": k, "d": "d2", "m": "GET"}] + R(r, 3) + [{"a": "FetchEndIf", "p": r, "out": "cacheable", "ttl": 2}] + R(r, 8)
+add(KD, "three_keys_two_clients_room", three, seq2)
+json.dump(KD, open(os.path.join(here, "keys_directed.json"), "w"), indent=0)
+
 # the known finding KF-C18-evicted-inflight
 K = [{"a": "Start", "p": "r1", "k": "k1", "d": "d1", "m": "GET"}, {"a": "Lookup", "p": "r1"}, {"a": "GetStep", "p": "r1", "res": "notfound"}, {"a": "UpStart", "p": "r1"},
      {"a": "Start", "p": "r2", "k": "k2", "d": "d1", "m": "GET"}, {"a": "Lookup", "p": "r2"}] + purge("p1", "k1", "d1") + \
